@@ -5,6 +5,7 @@ import math
 from .. import formula as F
 from .. import refsem
 from .. import impl
+from .. import reconf
 
 ID = 'C01'
 LEVEL = 'exploration'
@@ -12,7 +13,8 @@ RULE = ('all formulas of the stated fragments (<=k operators over the operator/i
         'arithmetic terms; deep, wide, long and large-magnitude layers) x all traces up to the stated length over the value alphabet, each evaluated by the real '
         'offline monitor and compared with the reference rho; a case is non-trivial when the reference output is '
         'not constant +-inf and differs from the output of every direct operand (the top operator mattered); '
-        'cases are distinct by construction (each (formula, trace) pair is enumerated once)')
+        'cases are distinct by construction (each (formula, trace) pair is enumerated once); life layer: the same comparison on specification objects that were '
+        'used under another default unit / sampling period before and then switched through the public setters (all ordered pairs of 4 configurations)')
 ASSUMPTIONS = ['finite dyadic sample values only; NaN/inf inputs out of scope',
                'cases where the reference raises a math domain error are dropped',
                'reference semantics vf/refsem.py transcribes the README definition (prev/next weak, s_prev/s_next strong)']
@@ -92,8 +94,57 @@ def _formula_sets(tier):
     return sets
 
 
+def life_formulas():
+    """bounded operators whose windows depend on the default unit and the sampling period"""
+    px, py, X = F.PX, F.PY, F.X
+    out = []
+    for I in ((0, 2), (1, 2)):
+        out += [('always', I, px), ('eventually', I, X), ('once', I, px), ('historically', I, X), ('until', I, px, ('pred', '<=', X, F.C1)),
+                ('since', I, px, ('pred', '<=', X, F.C1))]
+    out += [('or', ('always', (0, 1), px), ('once', (1, 1), py)), ('eventually', (0, 1), ('historically', (0, 1), px))]
+    return out
+
+
+def run_life(shard, res):
+    """specification objects with an earlier life under another default unit / sampling period (vf/reconf.py); the reference is evaluated
+    on the formula with its bounds converted to samples under the configuration in force"""
+    for fj in shard['formulas']:
+        f = F.from_json(fj)
+        vs = sorted(F.fvars(f))
+        res.formulas += 1
+        for suffix in ('', 's', 'ms'):
+            text = 'out = ' + F.pr(f, bound=reconf.speller(suffix))
+            case0 = {'life_layer': True, 'formula': fj, 'spec': text, 'vars': vs, 'suffix': suffix}
+            for name, c1, f1, spec in reconf.lived_objects('dt_off', f, suffix, vs, res, _mod(), case0):
+                traces = list(F.traces(shard['n'] if len(vs) == 1 else shard['n'] - 1, F.V2, len(vs)))
+                if F.has_op(f1, F.BIN_T) and F.max_bound(f1) > 100:
+                    traces = traces[3::7]        # bounded since/until over a window of a thousand samples takes seconds per evaluation
+                for t in traces:
+                    w = F.trace_dict(t, vs)
+                    times = reconf.times(c1, len(t))
+                    ref = refsem.ev(f1, w, len(t))
+                    res.evaluations += 1
+                    k, val = impl.outcome(impl.dt_evaluate, spec, w, times)
+                    msg = ('evaluate() raised %s' % (val,)) if k != 'ok' else _values_ok(val, ref, times)
+                    if msg:
+                        res.violation(_mod(), dict(case0, life=name, trace=w, times=times),
+                                      'object re-configured %s (bounds then denote %s): %s' % (name, F.pr(f1), msg))
+                        res.outcomes['re-configured object differs'] += 1
+                    else:
+                        res.outcomes['agree'] += 1
+                        res.flags['life_cases'] += 1
+                        if refsem.top_matters(f1, w, len(t), ref):
+                            res.nontrivial += 1
+                            res.flags['life_nontrivial'] += 1
+                    res.digest(text, name, t, msg)
+        res.sample({'spec': text, 'lives': [l[0] for l in reconf.lives()][:3]}, 1)
+
+
 def shards(tier):
     out = []
+    lf = life_formulas()
+    for i in range(0, len(lf), 1):
+        out.append({'tag': 'Life', 'formulas': [F.to_json(f) for f in lf[i:i + 1]], 'values': list(F.V2), 'n': 4 if tier == 'quick' else 5})
     for tag, fs, values, n in _formula_sets(tier):
         per = 40 if tag in ('F1', 'Arith') else (4 if tag.startswith(('Deep', 'Long')) else 60)
         for i in range(0, len(fs), per):
@@ -117,6 +168,11 @@ def _values_ok(out, ref, times, exact=False):
 def check_case(case, spec=None):
     """returns None (holds / outside the property) or a message"""
     f = F.from_json(case['formula'])
+    if case.get('life_layer'):
+        c1, f1, spec = reconf.lived_object('dt_off', f, case['suffix'], case['vars'], case['life'])
+        ref = refsem.ev(f1, case['trace'], len(case['times']))
+        k, val = impl.outcome(impl.dt_evaluate, spec, case['trace'], case['times'])
+        return ('evaluate() raised %s' % (val,)) if k != 'ok' else _values_ok(val, ref, case['times'])
     w = case['trace']
     n = len(case['times'])
     try:
@@ -135,6 +191,8 @@ def check_case(case, spec=None):
 
 def run_shard(shard, tier, res):
     values = shard['values']
+    if shard['tag'] == 'Life':
+        return run_life(shard, res)
     for fj in shard['formulas']:
         f = F.from_json(fj)
         vs = sorted(F.fvars(f)) or ['x']
@@ -203,7 +261,9 @@ def finalize(agg, outcomes, flags, tier):
     from ..runner import Broken
     if agg['nontrivial'] < 1000:
         raise Broken('vacuous: only %d non-trivial cases' % agg['nontrivial'])
-    return {}
+    if flags.get('life_nontrivial', 0) < 100:
+        raise Broken('vacuous: only %d non-trivial cases on re-configured objects' % flags.get('life_nontrivial', 0))
+    return {'cases_on_reconfigured_objects': flags.get('life_cases', 0)}
 
 
 def _mod():
